@@ -5,7 +5,9 @@ import Revm.Model.Evm
 frame machine meets on every reachable run, but whose proof needs that `keccak256` address derivation never collides:
 * `set_code` (end of a creation) is applied to an account whose code is empty — the `CodeChange` journal entry does not
   record the previous code;
-* `create_account_checkpoint` is applied to a target that is not already marked `created` in this transaction.
+* `create_account_checkpoint` that does not end in a collision is applied to a target that is not already marked
+  `created` in this transaction (a second creation on an address created earlier in the transaction normally IS a
+  collision — nonce 1 from Spurious Dragon on — and that case needs no condition).
 `journalOpsStrict` is `journalOps` that stops (a model-level panic) when one of the two would be violated. A completed
 run of the strict machine is a run of `journalOps` with the same result (`Proofs/EvmRefineStrict.lean`), so "the strict
 run completes" is exactly the hypothesis "the run completes and is admissible" of the whole-transaction refinement
@@ -18,7 +20,8 @@ def journalOpsStrict : CpOps Journal.Checkpoint :=
     createCheckpoint := fun w caller a hasStorage value spec =>
       match w.js.state a with
       | some acc =>
-        if acc.created then .error (.panic "inadmissible: create_account_checkpoint on an account created in this transaction")
+        if acc.created ∧ ¬ (acc.info.codeHash ≠ Journal.KECCAK_EMPTY ∨ acc.info.nonce ≠ 0 ∨ hasStorage = true) then
+          .error (.panic "inadmissible: create_account_checkpoint without collision on an account created in this transaction")
         else journalOps.createCheckpoint w caller a hasStorage value spec
       | none => journalOps.createCheckpoint w caller a hasStorage value spec
     setCode := fun w a hash =>
